@@ -78,14 +78,43 @@ func HarnessC03Skeleton() {
 
 // HarnessC03Replace: the value of every existing entry of every mapping of the
 // skeleton is replaced in turn by a malformed placeholder in one of four shapes.
-func HarnessC03Replace(shape int) {
+func HarnessC03Replace(shape int) { verifC03Replace(shape, false) }
+
+// HarnessC03ReplaceFull: the same on the skeleton that uses every key, with the
+// entry moved one place up or down in its mapping (the parser handles some
+// keys in the order they are written).
+func HarnessC03ReplaceFull(shape int) { verifC03Replace(shape, true) }
+
+func verifC03Replace(shape int, full bool) {
 	doc, sites := verifSkeletonSites()
+	if full {
+		doc, sites = verifFullSkeletonSites()
+	}
 	site := sites.maps[verifChoose("mapping", len(sites.maps))]
 	m := site.node
 	e := verifChoose("entry", len(m.Content)/2)
 	s := yScalar(verifBadExpr)
 	key := m.Content[2*e].Value
 	m.Content[2*e+1] = verifShape(shape, s)
+	if full {
+		n := len(m.Content) / 2
+		swap := func(a, b int) {
+			m.Content[2*a], m.Content[2*b] = m.Content[2*b], m.Content[2*a]
+			m.Content[2*a+1], m.Content[2*b+1] = m.Content[2*b+1], m.Content[2*a+1]
+		}
+		switch verifChoose("move", 3) {
+		case 1:
+			if e == 0 {
+				return
+			}
+			swap(e, e-1)
+		case 2:
+			if e+1 >= n {
+				return
+			}
+			swap(e, e+1)
+		}
+	}
 	verifPlace(doc, 1, 0)
 	w, perrs := verifParseOnly(doc)
 	if len(perrs) > 0 {
